@@ -329,8 +329,7 @@ func observe(m omap, want *omObs) string {
 	return ""
 }
 
-// topLevelKeys extracts the key texts of `{k:v,k:v}` leniently (the internal constraint map marshals its
-// integer-typed keys without quotes, so encoding/json cannot parse its output).
+// topLevelKeys extracts the key texts of `{k:v,k:v}` in their order (encoding/json would lose the order).
 func topLevelKeys(b []byte) ([]string, bool) {
 	if len(b) < 2 || b[0] != '{' || b[len(b)-1] != '}' {
 		return nil, false
@@ -375,13 +374,14 @@ func marshalKeys(m omap, kind string) []string {
 	if err != nil {
 		return nil
 	}
+	if !json.Valid(b) { // every map, the constraint map (integer keys) included: an object key is a string
+		return []string{"<invalid JSON: " + string(b) + ">"}
+	}
 	keys, _ := topLevelKeys(b)
 	if kind == "Constraints" {
 		for i, k := range keys {
 			keys[i] = njs.VerifKeyOfJSON(k)
 		}
-	} else if !json.Valid(b) {
-		return []string{"<invalid JSON: " + string(b) + ">"}
 	}
 	return keys
 }
